@@ -18,6 +18,7 @@ Configuration format (JSON-able):
  kind in req | def | kwreq | kwdef | pos | posdef
 """
 import threading
+import zlib
 
 from . import probe
 
@@ -46,6 +47,11 @@ class Marker(object):
 
     def __repr__(self):
         return '<%s>' % ':'.join(str(s) for s in self.sym)
+
+    def __bool__(self):
+        # about half of all injected values are falsy objects (as 0, '' or an empty container would be): nothing in the
+        # properties lets the framework treat a falsy resource, default, provided value or context as absent
+        return zlib.crc32(repr(self.sym).encode('utf8')) % 2 == 0
 
 
 def new_trace(environ=None):
@@ -299,13 +305,15 @@ def make_callable(rt, f, role, provides=()):
             return deco(ns['fn'])     # clastic code: its refusal is a construction verdict
         except Exception as e:
             raise Refused(e)
+    # 'falsy': the instance behind the method / the callable object is an empty container (bool(obj) is False)
+    falsy = '    def __len__(self):\n        return 0\n' if f.get('falsy') else ''
     if form == 'method':
         sig, _ = signature_src(params, with_self=True)
-        exec('class K(object):\n    def %s(%s):\n        return %s\nfn = K().%s\n' % (safe, sig, call, safe), ns)
+        exec('class K(object):\n%s    def %s(%s):\n        return %s\nfn = K().%s\n' % (falsy, safe, sig, call, safe), ns)
         return ns['fn']
     if form == 'callable_object':
         sig, _ = signature_src(params, with_self=True)
-        exec('class K(object):\n    def __call__(%s):\n        return %s\nfn = K()\n' % (sig, call), ns)
+        exec('class K(object):\n%s    def __call__(%s):\n        return %s\nfn = K()\n' % (falsy, sig, call), ns)
         return ns['fn']
     if form == 'staticmethod':
         sig, _ = signature_src(params)
@@ -327,6 +335,9 @@ def make_middleware(rt, mw, type_registry):
     class (type equality drives clastic's uniqueness rule)."""
     from clastic import Middleware
     tname = mw['type']
+    if mw.get('alias_of') and ('instance', mw['alias_of']) in type_registry:
+        # the very same middleware object included once more (legal for a non-unique type): one more layer
+        return type_registry[('instance', mw['alias_of'])]
     cls = type_registry.get(tname)
     if cls is None:
         base = Middleware
@@ -336,11 +347,13 @@ def make_middleware(rt, mw, type_registry):
             if base is None:
                 base = type_registry[mw['base']] = type(str(mw['base']), (Middleware,), {
                     'unique': bool(mw.get('base_unique', True)), 'reorderable': True, '__repr__': lambda self: '<mw %s>' % self.mid})
-        cls = type(str(tname), (base,), {'unique': bool(mw.get('unique', True)),
+        # 'clsname': an unrelated type that merely carries the same class name as another one (two modules, a class factory)
+        cls = type(str(mw.get('clsname') or tname), (base,), {'unique': bool(mw.get('unique', True)),
                                                'reorderable': bool(mw.get('reorderable', True)),
                                                '__repr__': lambda self: '<mw %s>' % self.mid})
         type_registry[tname] = cls
     inst = cls()
+    type_registry[('instance', mw['mid'])] = inst
     inst.mid = mw['mid']
     inst.provides = tuple(mw.get('provides') or ())
     inst.endpoint_provides = tuple(mw.get('endpoint_provides') or ())
@@ -396,9 +409,11 @@ def full_prefix(cfg, values=None):
                    for k, l in enumerate(cfg['levels'][:-1]))
 
 
-def request_path(cfg, values=None):
+def request_path(cfg, values=None, sep='/'):
+    """sep='//': a non-canonical spelling of the same path (the route pattern is a leaf: it is executed directly
+    in the default slash mode, with the same values)"""
     values = values or {}
-    return full_prefix(cfg, values) + '/r' + ''.join('/' + values.get(b, 'v_' + b) for b in cfg['route']['bindings'])
+    return full_prefix(cfg, values) + '/r' + ''.join(sep + values.get(b, 'v_' + b) for b in cfg['route']['bindings'])
 
 
 def build(cfg, error_handler_factory=None, slash_mode=None):
